@@ -454,6 +454,20 @@ int gen_matrix(const case_t *c, rng_t *r, csc_t *A)
 #endif
         }
     }
+    /* tinydiag=k (1-based count), tinyexp=e: k diagonal entries (where stored) are multiplied by 2^e: with threshold u = 0 the
+       library keeps them as pivots, the factorization has element growth 2^-e and iterative refinement has real work to do */
+    if (cint(c, "tinydiag", 0) > 0) {
+        int e = (int)cint(c, "tinyexp", -30); int_t left = cint(c, "tinydiag", 0);
+        for (int_t j = (n > 2 ? 1 : 0); j < n && left > 0; j += (n > 6 ? 3 : 1))
+            for (int_t k = A->colptr[j]; k < A->colptr[j + 1]; ++k) if (A->rowind[k] == j) {
+#if IS_COMPLEX
+                A->val[k].r = ldexp(A->val[k].r, e); A->val[k].i = ldexp(A->val[k].i, e);
+#else
+                A->val[k] = (elem_t)ldexp((double)A->val[k], e);
+#endif
+                --left;
+            }
+    }
 scaling: ;
     /* --- power-of-two row/column scaling (exact) --- */
     int rs = cint(c, "rscale", 0), cs = cint(c, "cscale", 0);
